@@ -184,6 +184,20 @@ def function(ex: I.Executor, f, args, kwargs):
                 ex.raise_py(decimal.InvalidOperation)
             return lift(d)
         raise OutOfSubset(f'Decimal({v!r})')
+    if f is math.isfinite:
+        v = args[0]
+        if isinstance(v, VFloat):
+            return VBool(v.finite())
+        if isinstance(v, (VInt, VBool)):
+            t = I.as_int_term(v)
+            if ex.branch(z3.Or(t >= 2 ** 1024, t <= -(2 ** 1024))):
+                ex.raise_py(OverflowError)
+            return VBool(True)
+        if isinstance(v, VDec):
+            big = z3.RealVal(2 ** 1024)
+            return VBool(z3.And(v.t < big, v.t > -big))
+        if isinstance(v, (VStr, VNone, VTuple, VPyList)):
+            ex.raise_py(TypeError)
     if f is math.isinf or f is math.isnan:
         v = args[0]
         if isinstance(v, VFloat):
@@ -368,6 +382,24 @@ def function(ex: I.Executor, f, args, kwargs):
             s = args[0]
             return VSeq(s.len, s.arr, s.kind)
         return VPyList(ex.iter_concrete(args[0]))
+    if f is iter and len(args) == 1:
+        if isinstance(args[0], VSeq):
+            return I.VIter(args[0])
+        if isinstance(args[0], I.VIter):
+            return args[0]
+    if f is next and isinstance(args[0], I.VIter):
+        it = args[0]
+        if ex.branch(it.pos >= it.seq.len):
+            if len(args) > 1:
+                return args[1]
+            ex.raise_py(StopIteration)
+        v = it.seq.get(it.pos)
+        it.pos = it.pos + 1
+        return v
+    if f is reversed and isinstance(args[0], VSeq):
+        sq = args[0]
+        k = z3.Int('k!rev')
+        return VSeq(sq.len, z3.Lambda([k], z3.Select(sq.arr, sq.len - 1 - k)), sq.kind)
     if f is enumerate and isinstance(args[0], VSeq):
         return I.VEnum(args[0], args[1] if len(args) > 1 else kwargs.get('start', VInt(0)))
     if f is reversed and isinstance(args[0], I.VRange) and NOTCONC in (args[0].lo.conc, args[0].hi.conc):
@@ -538,7 +570,7 @@ def method(ex: I.Executor, recv: Val, name: str, args, kwargs):
                 return VTuple([lift(k) for k in recv.d])
             return VTuple(list(recv.d.values()))
     if isinstance(recv, VDec):
-        if name == 'is_nan' or name == 'is_infinite':
+        if name == 'is_nan' or name == 'is_infinite' or name == 'is_snan' or name == 'is_qnan':
             return VBool(False)
         if name == 'is_finite':
             return VBool(True)
